@@ -180,6 +180,23 @@ set_option maxRecDepth 100000 in
 example : (({ id := 1, flags := 256, requestPayload := 1232, pad := 128, q := [{ name := [[119,119,119],[101,120,97,109,112,108,101],[]], rdclass := 1, rdtype := 1 }], opt := some { ttl := 0, payload := 1232, options := [] }, tsig := some { name := [[107,101,121],[101,120,97,109,112,108,101],[]], alg := [[104,109,97,99,45,115,104,97,50,53,54],[]], time := 1700000000, fudge := 300, mac := List.replicate 32 0, origId := 1, error := 0, other := [] } } : Message).toWire 0 false).map List.length = .ok 128 := by
   rfl
 
+/-- `padding_multiple` on the re-emit route: a message as the receiving side holds it — the result `m'` of parsing any
+octets `w0` with a key —, possibly modified (`f`: any change of the sections), given an OPT record and a block size with
+`use_edns(pad=…)` and rendered again, comes out as a multiple of the block, whether its TSIG record is re-emitted as
+received or signed anew: in the model the MAC is data of the message, so "signed just now" and "carried over" are the
+same rendering, and `Message.to_wire` clears the compression table before the TSIG record *because a TSIG is present*,
+not because it was signed (the padding arithmetic counted its owner uncompressed either way). -/
+theorem padding_multiple_reemit (cfg : PCfg) (w0 : Bytes) (m' : Message) (_hp : parseMessage cfg w0 = .ok m')
+    (f : Message → Message) (o : EOpt) (pad : Nat) (hpad : pad ≠ 0) (lim : Nat) (pt : Bool) (w : Bytes)
+    (h : ({ f m' with opt := some o, pad := pad } : Message).toWire lim pt = .ok w) :
+    w.length % pad = 0 :=
+  toWire_pad { f m' with opt := some o, pad := pad } lim pt w o rfl hpad h
+
+-- non-vacuity: a received message (MAC and time as they came) with key `key.example.` below the question's suffix, padded to 128
+set_option maxRecDepth 100000 in
+example : (({ id := 4660, flags := 33152, requestPayload := 1232, pad := 128, q := [{ name := [[119,119,119],[101,120,97,109,112,108,101],[]], rdclass := 1, rdtype := 1 }], opt := some { ttl := 0, payload := 1232, options := [] }, tsig := some { name := [[107,101,121],[101,120,97,109,112,108,101],[]], alg := [[104,109,97,99,45,115,104,97,50,53,54],[]], time := 1690000000, fudge := 300, mac := (List.range 32).map (· + 1), origId := 4660, error := 0, other := [] } } : Message).toWire 0 true).map List.length = .ok 128 := by
+  rfl
+
 /-- … the same through the `Renderer` *object* (`add_opt(opt, pad, opt_size, tsig_size)`, `write_header`, then
 `add_tsig` / `add_multi_tsig`, i.e. `_write_tsig`, the MAC being given), for a caller that does not go through
 `Message.to_wire`: in any renderer state (`KeysLong`: the root name is never a table key, and the header is there — both
